@@ -232,6 +232,7 @@ pub fn run_seq(spec: &SeqSpec, cfg: RunCfg) -> SeqRun {
     // one scripted step of source i (used by the driver and by re-entrant subscribers)
     let step_src: Arc<dyn Fn(usize) + Send + Sync> = {
       let (lives, pos, sources, out2, tok) = (lives.clone(), pos.clone(), spec.sources.clone(), out2.clone(), tok_for_run.clone());
+      let last_nsub: Arc<Mutex<Vec<usize>>> = Arc::new(Mutex::new(vec![0; spec.sources.len()]));
       Arc::new(move |i: usize| match &lives[i] {
         Live::Hot(h) => {
           let nsub = h.n_subscribed();
@@ -241,6 +242,16 @@ pub fn run_seq(spec: &SeqSpec, cfg: RunCfg) -> SeqRun {
           let sc = &sources[i].scripts[(nsub - 1).min(sources[i].scripts.len() - 1)];
           let st = {
             let mut p = pos.lock().unwrap();
+            // a new subscription starts its script from the beginning
+            {
+              let mut ln = last_nsub.lock().unwrap();
+              if ln[i] != nsub {
+                if ln[i] != 0 {
+                  p[i] = 0;
+                }
+                ln[i] = nsub;
+              }
+            }
             if p[i] < sc.len() {
               p[i] += 1;
               Some(sc[p[i] - 1].clone())
